@@ -74,6 +74,14 @@ package twig
 //@   ensures  old(p.tokenIndex) <= p.tokenIndex && (err == nil ==> p.tokenIndex <= len(p.tokens))
 //@   modifies p.tokenIndex
 //@   loop * invariant old(p.tokenIndex) <= p.tokenIndex && p.tokenIndex <= len(p.tokens)
+// one round of the outer loop (i0, n0: token index and number of nodes at its start): a text token
+// is consumed alone and becomes one text node with its value; a comment consumes exactly the tokens
+// up to and including the first comment end and adds no node
+//@   loop 1 snapshot i0 p.tokenIndex
+//@   loop 1 snapshot n0 len(nodes)
+//@   loop 1 step[C04] p.tokens[i0].Type == TOKEN_TEXT ==> p.tokenIndex == i0 + 1 && ((len(nodes) == n0 + 1 && typeIs(nodes[n0], "*TextNode") && unboxAs(nodes[n0], "*TextNode").content == p.tokens[i0].Value) || (len(nodes) == n0 && len(p.tokens[i0].Value) == 0))
+//@   loop 1 step[C04] p.tokens[i0].Type == TOKEN_COMMENT_START ==> len(nodes) == n0 && p.tokens[p.tokenIndex - 1].Type == TOKEN_COMMENT_END && (forall k int :: i0 < k && k < p.tokenIndex - 1 ==> p.tokens[k].Type != TOKEN_COMMENT_END)
+//@   loop 2 invariant[C04] i0 < p.tokenIndex && (forall k int :: i0 < k && k < p.tokenIndex ==> p.tokens[k].Type != TOKEN_COMMENT_END)
 
 // the contract of the handler type and of every handler is the same text (group handlerspec)
 //@ group handlerspec props: C05
@@ -303,6 +311,7 @@ package twig
 //   caches whose contents are functions of their keys (attribute cache: C20; interned strings are
 //   equal to their keys) and the debug logger (writes to a log, never into rendered output):
 //@ list global_allow attributeCache globalCache debugger
+// (C01 relies on it: the CacheOK clauses of getAttribute and evictLRUEntries are C01 obligations too)
 // a pooled context either has no maps (Release) or four different ones (New)
 //@ pool renderContextPool
 //@   invariant x.blocks == nil || x.blocks != x.parentBlocks
@@ -324,9 +333,9 @@ package twig
 // evictLRUEntries is documented as "caller holds the attributeCache lock"
 //@ func evictLRUEntries props: C02 C20
 //@   flag holds attributeCache
-//@   requires[C20] CacheOK()
-//@   ensures[C20] CacheOK()
-//@   loop * invariant[C20] CacheOK()
+//@   requires[C20,C01] CacheOK()
+//@   ensures[C20,C01] CacheOK()
+//@   loop * invariant[C20,C01] CacheOK()
 //@ func evictLRUEntries$1 props: C02
 //@   flag holds attributeCache
 // pooled per-call objects: nothing they own may be used after they are handed back
@@ -415,8 +424,20 @@ package twig
 //@   loop 3 invariant[C09] 0 - 1 <= rangeindex && rangeindex < len(n.elseBranch) && tr == rendersUpTo(evalsUpTo(old(tr), elemsArr(n.conditions), off(n.conditions), len(n.conditions), ctx), elemsArr(n.elseBranch), off(n.elseBranch), rangeindex + 1, ctx)
 //@   ensures[C09] err == nil ==> (exists k int :: 0 <= k && k < len(n.conditions) && falsyUpTo(old(tr), elemsArr(n.conditions), off(n.conditions), k, ctx) && fn_toBool_0(ctx, evalRes(evalsUpTo(old(tr), elemsArr(n.conditions), off(n.conditions), k, ctx), n.conditions[k], ctx)) && tr == rendersUpTo(evalsUpTo(old(tr), elemsArr(n.conditions), off(n.conditions), k + 1, ctx), elemsArr(n.bodies[k]), off(n.bodies[k]), len(n.bodies[k]), ctx)) || (falsyUpTo(old(tr), elemsArr(n.conditions), off(n.conditions), len(n.conditions), ctx) && tr == rendersUpTo(evalsUpTo(old(tr), elemsArr(n.conditions), off(n.conditions), len(n.conditions), ctx), elemsArr(n.elseBranch), off(n.elseBranch), len(n.elseBranch), ctx))
 // the node invariant IfNode.Render relies on is established where the node is built
+// token path of the macro declaration: a parameter followed by "=" gets as its default the
+// expression the expression parser yields for what follows (so an omitted argument has the value
+// of the default expression, as a passed argument has the value of its expression)
+//@ func (*Parser).parseMacro props: C12
+//@   loop 3 snapshot i0 parser.tokenIndex
+//@   loop 3 step[C12] i0 + 1 < len(parser.tokens) && parser.tokens[i0 + 1].Type == TOKEN_OPERATOR && parser.tokens[i0 + 1].Value == "=" ==> has(defaults, parser.tokens[i0].Value) && defaults[parser.tokens[i0].Value] == pxe && pxk == 2
 //@ func (*Parser).parseIf props: C09
 //@   loop 1 invariant[C09] len(conditions) == len(bodies)
+// one round of the tag loop: an elseif tag adds exactly one branch - the condition and the body
+// just parsed, whatever they are (an empty body still takes part in branch selection) - and no
+// other tag adds one
+//@   loop 1 snapshot c0 len(conditions)
+//@   loop 1 step[C09] blockName == "elseif" ==> len(conditions) == c0 + 1 && len(bodies) == c0 + 1 && conditions[c0] == elseifCondition && bodies[c0] == elseifBody
+//@   loop 1 step[C09] blockName != "elseif" ==> len(conditions) == c0 && len(bodies) == c0
 //@   ensures[C09] err == nil ==> typeIs(ret0, "*IfNode") && len(unboxAs(ret0, "*IfNode").bodies) == len(unboxAs(ret0, "*IfNode").conditions)
 // set: the value expression is evaluated once and bound to the name in the current context
 //@ func (*RenderContext).SetVariable props: C09 C11
@@ -497,6 +518,33 @@ package twig
 //@ func toString props: C07 C19
 //@   function
 //@   ensures[C19] typeIs(v, "string") ==> ret == unboxAs(v, "string")
+// Every position a filter can be applied at (filter chain of a print tag or of any expression, the
+// sequence of a for loop, an apply block) hands the name, the value and the arguments to ApplyFilter
+// and goes on with what ApplyFilter yields: the event of applying a filter is named, not interpreted
+// (what ApplyFilter does for the two escape names is the impl contract above), so the two names, and
+// all positions, cannot behave differently.
+//@ ghost fl Tr
+//@ func (*RenderContext).ApplyFilter
+//@   assumed
+//@   ghostset fl emitFilter(old(fl), ctx, name, value, args)
+//@   ensures ret0 == filterRes(old(fl), ctx, name, value, args) && ret1 == filterErr(old(fl), ctx, name, value, args)
+// one round of a chain loop applies exactly the filter at that position to the result so far
+//@ func (*RenderContext).ApplyFilterChain props: C07
+//@   loop 1 snapshot fl0 fl
+//@   loop 1 snapshot r0 result
+//@   loop 1 step[C07] fl == emitFilter(fl0, ctx, chain[rangeindex].name, r0, chain[rangeindex].args) && result == filterRes(fl0, ctx, chain[rangeindex].name, r0, chain[rangeindex].args)
+//@   loop 1 invariant[C07] 0 - 1 <= rangeindex && rangeindex < len(chain) && (rangeindex == 0 - 1 ==> result == baseValue && fl == old(fl))
+//@   ensures[C07] len(chain) == 0 ==> ret0 == baseValue && ret1 == nil && fl == old(fl)
+//@ func (*ForNode).Render props: C07
+//@   loop 1 snapshot fl0 fl
+//@   loop 1 snapshot r0 result
+//@   loop 1 step[C07] fl == emitFilter(fl0, ctx, filterChain[rangeindex].name, r0, filterChain[rangeindex].args) && result == filterRes(fl0, ctx, filterChain[rangeindex].name, r0, filterChain[rangeindex].args)
+// an apply block applies its filter, under the name written, to the rendered body and writes the
+// string form of what the filter yields - on every path that ends without an error
+//@ func (*ApplyNode).Render props: C07
+//@   atcall[C07] (*RenderContext).ApplyFilter a0 == ctx && a1 == n.filter && typeIs(a2, "string")
+//@   atcall[C07] WriteString a0 == w && isFilterEvent(fl) && lastFilterCtx(fl) == ctx && lastFilterName(fl) == n.filter && a1 == fn_ToString_0(ctx, lastFilterRes(fl))
+//@   ensures[C07] ret == nil ==> isFilterEvent(fl) && lastFilterCtx(fl) == ctx && lastFilterName(fl) == n.filter
 //@ func NewFilterViolation props: C06 C07
 //@   ensures ret != nil
 //@ func NewFunctionViolation props: C06
@@ -593,8 +641,8 @@ package twig
 //@ define FV() ufV_fieldByPath(OV(), ufS_fieldPath(OT(), attr))
 //@ define structCase() (obj != nil && !typeIs(obj, "map[string]interface{}") && ufi_kind(OV()) == 25)
 //@ func (*RenderContext).getAttribute props: C20
-//@   requires CacheOK()
-//@   ensures[C20] CacheOK()
+//@   requires[C20,C01] CacheOK()
+//@   ensures[C20,C01] CacheOK()
 //@   ensures[C20] err == nil && structCase() && uf_hasField(OT(), attr) && len(ufS_fieldPath(OT(), attr)) >= 1 && ufI_fieldByPathErr(OV(), ufS_fieldPath(OT(), attr)) == nil && uf_isValid(FV()) && uf_canIface(FV()) ==> ret0 == ufI_iface(FV())
 //@   ensures[C20] err == nil && structCase() && !uf_hasField(OT(), attr) && !valMeth(OT(), attr) && !ptrMeth(OT(), attr) ==> ret0 == nil
 //@   ensures[C20] err == nil && typeIs(obj, "map[string]interface{}") ==> ret0 == ite(has(unboxAs(obj, "map[string]interface{}"), attr), unboxAs(obj, "map[string]interface{}")[attr], nil)
@@ -747,6 +795,20 @@ package twig
 //@   ensures[C11] plainName() && !has(ctx.context, name) && !globalHas() && ctx.parent != nil ==> lk == emitLookup(old(lk), ctx.parent, name) && ret0 == lookRes(old(lk), ctx.parent, name) && ret1 == lookErr(old(lk), ctx.parent, name)
 //@   ensures[C11] plainName() && !has(ctx.context, name) && !globalHas() && ctx.parent == nil ==> ret0 == nil && ret1 == nil && lk == old(lk)
 
+// A macro name is resolved in the innermost context that binds it: the context's own macros first,
+// otherwise exactly what the parent's lookup yields (the event is named, not interpreted), and
+// nothing without a parent - so a call reaches the same macro from every nesting depth.
+//@ func (*RenderContext).GetMacro
+//@   assumed
+//@   modifies nothing
+//@   ghostset lk emitMacroLookup(old(lk), ctx, name)
+//@   ensures ret0 == macroRes(old(lk), ctx, name) && ret1 == macroFound(old(lk), ctx, name)
+//@ impl (*RenderContext).GetMacro props: C12
+//@   requires ctx.macros != nil
+//@   ensures[C12] has(ctx.macros, name) ==> ret0 == ctx.macros[name] && ret1 && lk == old(lk)
+//@   ensures[C12] !has(ctx.macros, name) && ctx.parent != nil ==> lk == emitMacroLookup(old(lk), ctx.parent, name) && ret0 == macroRes(old(lk), ctx.parent, name) && ret1 == macroFound(old(lk), ctx.parent, name)
+//@   ensures[C12] !has(ctx.macros, name) && ctx.parent == nil ==> ret0 == nil && !ret1 && lk == old(lk)
+
 // values that may be used as keys of a map[interface{}] (C05: hash of unhashable type)
 //@ func isMapKeyable props: C05
 //@   pure
@@ -774,7 +836,7 @@ package twig
 //@ define noOpen(S, A, B) (forall q int :: A <= q && q < B ==> !openAt(S, q))
 //@ define noClose(S, A, B, C) (forall q int :: A <= q && q < B ==> !closeAt(S, q, C))
 //@ define closerByte(T) ite(T == TAG_VAR || T == TAG_VAR_TRIM, 125, ite(T == TAG_BLOCK || T == TAG_BLOCK_TRIM, 37, 35))
-//@ func FindNextTag props: C04 C14 C05
+//@ func FindNextTag props: C04 C14 C05 C13
 //@   pure
 //@   strings content
 //@   loop 1 invariant 0 <= i && noOpen(source, startPos, startPos + i)
@@ -830,11 +892,15 @@ package twig
 //@ define dashCloser(S, A, E) (A < E && S[E - 1] == 45)
 //@ define endTok(S, P, A, E) ite(S[P + 1] == 123, ite(dashCloser(S, A, E), TOKEN_VAR_END_TRIM, TOKEN_VAR_END), ite(S[P + 1] == 37, ite(dashCloser(S, A, E), TOKEN_BLOCK_END_TRIM, TOKEN_BLOCK_END), TOKEN_COMMENT_END))
 //@ func (*ZeroAllocTokenizer).TokenizeOptimized props: C04 C14 C05
+//@   strings content
 //@   loop 1 invariant 0 <= pos && pos <= len(t.source) && t.source == old(t.source) && (pos == 0 || afterCloser(t.source, pos) || afterOpener(t.source, pos))
 //@   atcall[C04,C14] (*ZeroAllocTokenizer).AddToken#1 a1 == TOKEN_TEXT && pos < len(t.source) && a2 == substr(t.source, pos, len(t.source)) && noOpen(t.source, pos, len(t.source))
 // (the branch for an opener preceded by a backslash: the text tokens it emits are not the source at
 // the scan position, the backslash is dropped and the opener becomes text: recorded finding)
-//@   atcall[C04] (*ZeroAllocTokenizer).AddToken#3 a1 == TOKEN_TEXT && a2 == substr(t.source, pos, pos + len(a2))
+//@   finding atcall[C04] (*ZeroAllocTokenizer).AddToken#3 a1 == TOKEN_TEXT && a2 == substr(t.source, pos, pos + len(a2))
+// what that branch does emit is the opener as it stands in the source, dash included, in both
+// tokenizers (so the two agree on it)
+//@   atcall[C14] (*ZeroAllocTokenizer).AddToken#3 a1 == TOKEN_TEXT && a2 == substr(t.source, tagLoc.Position, tagLoc.Position + tagLoc.Length)
 //@   atcall[C04,C14] (*ZeroAllocTokenizer).AddToken#4 a1 == TOKEN_TEXT && pos < tagLoc.Position && a2 == substr(t.source, pos, tagLoc.Position) && openAt(t.source, tagLoc.Position) && noOpen(t.source, pos, tagLoc.Position)
 //@   atcall[C04,C14] (*ZeroAllocTokenizer).AddToken#5 a2 == "" && openAt(t.source, tagLoc.Position) && noOpen(t.source, pos, tagLoc.Position) && a1 == startTok(t.source, tagLoc.Position)
 //@   atcall[C04,C14] (*ZeroAllocTokenizer).AddToken#6 a1 == TOKEN_TEXT && t.source[tagLoc.Position + 1] == 35 && a2 == substr(t.source, tagLoc.Position + 2, tagEndPos)
@@ -866,7 +932,8 @@ package twig
 //@   loop 2 invariant (i >= 4 ==> (forall q int :: posT() <= q && (nextTagPos == 0 - 1 || q < nextTagPos) ==> !m3(srcT(), q)))
 //@   loop 2 invariant (i >= 5 ==> (forall q int :: posT() <= q && (nextTagPos == 0 - 1 || q < nextTagPos) ==> !m4(srcT(), q)))
 //@   loop 2 invariant nextTagPos == 0 - 1 || (posT() < nextTagPos && ((i >= 1 && m0(srcT(), nextTagPos) && tagType == TOKEN_VAR_START_TRIM && tagLength == 3) || (i >= 2 && m1(srcT(), nextTagPos) && !m0(srcT(), nextTagPos) && tagType == TOKEN_VAR_START && tagLength == 2) || (i >= 3 && m2(srcT(), nextTagPos) && tagType == TOKEN_BLOCK_START_TRIM && tagLength == 3) || (i >= 4 && m3(srcT(), nextTagPos) && !m2(srcT(), nextTagPos) && tagType == TOKEN_BLOCK_START && tagLength == 2) || (i >= 5 && m4(srcT(), nextTagPos) && tagType == TOKEN_COMMENT_START && tagLength == 2)))
-//@   atcall[C04] (*ZeroAllocTokenizer).AddToken#2 a1 == TOKEN_TEXT && a2 == substr(srcT(), posT(), posT() + len(a2))
+//@   finding atcall[C04] (*ZeroAllocTokenizer).AddToken#2 a1 == TOKEN_TEXT && a2 == substr(srcT(), posT(), posT() + len(a2))
+//@   atcall[C14] (*ZeroAllocTokenizer).AddToken#2 a1 == TOKEN_TEXT && a2 == substr(srcT(), nextTagPos, nextTagPos + tagLength)
 //@   atcall[C04,C14] (*ZeroAllocTokenizer).AddToken#3 a1 == TOKEN_TEXT && a2 == substr(srcT(), posT(), len(srcT())) && noOpen(srcT(), posT(), len(srcT()))
 //@   atcall[C04,C14] (*ZeroAllocTokenizer).AddToken#4 a1 == TOKEN_TEXT && posT() < nextTagPos && a2 == substr(srcT(), posT(), nextTagPos) && openAt(srcT(), nextTagPos) && noOpen(srcT(), posT(), nextTagPos)
 //@   atcall[C04,C14] (*ZeroAllocTokenizer).AddToken#5 a2 == "" && openAt(srcT(), nextTagPos) && noOpen(srcT(), posT(), nextTagPos) && a1 == startTok(srcT(), nextTagPos) && tagLength == ite(srcT()[nextTagPos + 1] != 35 && dashAt(srcT(), nextTagPos + 2), 3, 2)
@@ -956,6 +1023,23 @@ package twig
 //@   ensures[C08] err == nil && typeIs(ret0, "*BinaryNode") ==> retBin().left == left && !(binOpAt(p) && prec(opAt(p)) > prec(retBin().operator))
 //@ func (*Parser).parseExpression props: C08
 //@   atcall[C08] (*Parser).parseBinaryExpression a0 == p && a1 == cur(expr) && binOpAt(p)
+// Which expression parse happened last, where it stopped and what it yielded (ghosts written by the
+// two entry points of the expression parser; every other parse function leaves them unknown).
+//@ ghost pxi Int
+//@ ghost pxe Iface
+//@ ghost pxk Int
+//@ func (*Parser).parseSimpleExpression
+//@   ghostassign pxi p.tokenIndex
+//@   ghostassign pxe ret0
+//@   ghostassign pxk 1
+//@ func (*Parser).parseExpression
+//@   ghostassign pxi p.tokenIndex
+//@   ghostassign pxe ret0
+//@   ghostassign pxk 2
+// A prefix operator (not, -, +) binds tighter than every binary operator: its operand is exactly
+// what one simple-expression parse yields, and nothing more is consumed before the node is built.
+//@ func (*Parser).parseSimpleExpression props: C08
+//@   atcall[C08] NewUnaryNode a0 == operator && a1 == pxe && pxk == 1 && p.tokenIndex == pxi
 //@ func isIdentifier props: C05 C08
 //@   pure
 //@   function
